@@ -501,6 +501,15 @@ class RevisionMap:
                 )
             ) + (revision.revision,)
 
+        # branch labels propagate along the lineage, which the new revision
+        # has just changed; derive them again from the labels as written
+        all_revs = {rev for rev in map_.values() if rev is not None}
+        for rev in all_revs:
+            rev.branch_labels = set(rev._orig_branch_labels)
+        self._add_branches(
+            [rev for rev in all_revs if rev._orig_branch_labels], map_
+        )
+
     def get_current_head(
         self, branch_label: Optional[str] = None
     ) -> Optional[str]:
